@@ -49,6 +49,7 @@ fn main() {
         let toks: Vec<&str> = line.split(' ').collect();
         // which of several equivalent public-API paths builds a node depends on the node AND on the case line
         exprs::set_salt(line);
+        stmts::reset_probe();
         let r = std::panic::catch_unwind(|| dispatch(&toks));
         match r {
             Ok(s) => writeln!(out, "{}", s).unwrap(),
